@@ -23,6 +23,7 @@ Example tie_C17_parse :
   /\ raises_pulse_sequence__parse_Hamiltonian =
      [("TypeError", "not isinstance(H, (list, tuple))");
       ("TypeError", "not all((isinstance(item, (list, tuple)) for item in H))");
+      ("TypeError", "not args");
       ("TypeError", "not all((hasattr(coeff, '__len__') for coeff in coeffs))");
       ("ValueError", "len(set(identifiers)) != len(identifiers)");
       ("ValueError", "not all((len(coeff) == n_dt for coeff in coeffs))")].
